@@ -98,3 +98,18 @@ Example variant_item_roundtrip :
   marshal variant_item None variant_value = Ok (hex "021234567807010203ffffffffffffffff000402aabb00") /\
   parse variant_item None (hex "021234567807010203ffffffffffffffff000402aabb00" ++ hex "99") = Ok (variant_value, hex "99").
 Proof. vm_compute. repeat split. Qed.
+
+(* the Uint24 reader as it stands in tls/tls.go today (translated on every run): the expression
+   `uint64(rest[0])<<16 | uint64(rest[1])<<8 | uint64(rest[2])` over the octets AT THE FIELD'S OFFSET is the
+   big-endian value of the first three of them (the pre-fix defect read data[0..2]; an index outside the slice
+   would be the impossible octet -1), its truncation guard is `len(rest) < 3`, and the marshal side refuses
+   exactly the values above 0xffffff *)
+Theorem uint24_read_as_in_source : forall (b0 b1 b2 : Byte.byte) (tail : bytes),
+  uint24_value_gen (bzs (b0 :: b1 :: b2 :: tail)) = Z.of_N (be_dec [b0; b1; b2]).
+Proof. exact uint24_value_meaning. Qed.
+Print Assumptions uint24_read_as_in_source.
+
+Theorem uint24_guards_as_in_source : forall len v : Z,
+  uint24_truncated_gen len = (len <? 3)%Z /\ uint24_overflow_gen v = (v >? 16777215)%Z.
+Proof. exact uint24_guards_meaning. Qed.
+Print Assumptions uint24_guards_as_in_source.
